@@ -1530,7 +1530,7 @@ func c19wExec(t *testing.T, r *kit.Run) func(c19wProg) kit.Outcome {
 		if obs.maskedRefused > 0 {
 			o.Classes = append(o.Classes, "masked-search-refused")
 		}
-		if fail != "" {
+		if fail != "" && res.Viol == nil {
 			o.Skip = true
 			fmt.Println("C19W bubble failure (not judged here):", firstLine(fail))
 			return o
